@@ -23,6 +23,10 @@ BUDGET = {"quick": 420, "thorough": 2400}
 
 
 def bounds(tier):
+    return _bounds(tier) + "; observed: all library observers subscribed, shapes <=3 ops and (2,2) M<=2"
+
+
+def _bounds(tier):
     if tier == "quick":
         return ("ordered shapes <=3 jobs, <=4 operations; every machine assignment M<=2 non-flexible x filter {none, default pair}; "
                 "every flexible structure M<=2 on <=3 operations (no filter); all interleavings x machine choices; durations Z>=0")
